@@ -51,8 +51,15 @@ def gen_case(rng, tier, diff=False):
         # make sure blocks on both sides of the first interleaved entry are present
         for b in (cr - 1, cr, min(cr + 1, nblocks - 1)):
             states[b] = 6
+    # a "fixed" VHDX (LeaveBlockAllocated): written with every block in place; after trimming, compaction or a
+    # repair tool the first and last block may still sit where a flat layout would put them while the interior does not
+    fixed_like = nblocks >= 3 and rng.chance(0.2)
+    if fixed_like:
+        states[0] = states[-1] = 6
     present = [b for b, s in enumerate(states) if s == 6]
     place = rng.weighted([("asc", 2), ("desc", 2), ("random", 4), ("gaps", 2), ("high", 1), ("logical", 2)])
+    if fixed_like:
+        place = "logical"
     bat_off = rng.pick([3 * MB, 4 * MB, 9 * MB])
     bat_mb = (8 * (nblocks + nblocks // cr + 2) + MB - 1) // MB
     first_mb = (bat_off // MB) + bat_mb + rng.randrange(0, 3)
@@ -61,6 +68,9 @@ def gen_case(rng, tier, diff=False):
     slots = list(range(len(present)))
     if place == "logical":
         slots = list(present)          # block b lies where it would lie in a fully allocated image
+        if fixed_like and len(present) >= 4 and rng.chance(0.6):
+            i, j = rng.sample(range(1, len(present) - 1), 2)
+            slots[i], slots[j] = slots[j], slots[i]          # two interior blocks changed places
     elif place == "desc":
         slots.reverse()
     elif place == "random":
@@ -84,7 +94,7 @@ def gen_case(rng, tier, diff=False):
          "file_size": top * MB, "place": place, "mode": mode, "inter": inter, "salt": rng.randrange(1 << 30),
          "kind": "nodiff", "header_seq": rng.pick([[5, 7], [9, 3], [4, 4]])}
     # LeaveBlockAllocated (a "fixed" VHDX): a hint for writers; the BAT still decides where every block lies
-    c["leave_alloc"] = (c["salt"] % 3) == 0
+    c["leave_alloc"] = fixed_like or (c["salt"] % 3) == 0
     c["reqs"] = gen_requests(rng, size, bs, n=6, sector=ss, raw_align=ss, max_bytes=2_000_000,
                              big=(20 * MB if (bs >= 32 * MB and rng.chance(0.4)) else 0))
     if inter:
